@@ -12,7 +12,11 @@
    conditions acting alone), in the Laplace domain at rational points and part by part (dc, each
    ac frequency); scaling one source scales its part; regrouping a multi-kind source into series
    single-kind sources leaves every response unchanged.
-   Noise superposition (power addition) is NOT covered by this check (see DESIGN.md).
+4. Round 3 (harness/c03_extra.py): LAP (Laplace-domain reassembly: V(s) against the Lean transforms of its own parts and
+   of its own V(t), the Lean model `sup.solve` on the raw netlist, ac-keyword sources in initial-value problems),
+   NOISE (node pairs / branch voltages, per-source parts combined in amplitude, whole minus a part, against the Lean
+   MNA transfer functions + `noisePower`), NALG (NoiseExpression operator algebra against the Lean model and its laws),
+   GROUPS (`_analysis_groups`, `cct.sub`, `cct.analysis`, kill / kill_except against the Lean model).
 """
 import os
 import sys
@@ -22,18 +26,36 @@ from fractions import Fraction
 sys.path.insert(0, os.path.dirname(os.path.abspath(__file__)))
 import common
 from common import fstr
+import time
+import json
 import gen_netlist
 from gen_netlist import fs
 from c01 import parse_reply
+import c03_extra
 
 warnings.filterwarnings('ignore')
 
 
 def run(chk, replay=None):
-    broken = chk.lean(['Lcapy/Props/C03.lean'],
+    t_phase = time.time()
+    phases = {}
+
+    def phase(name):
+        nonlocal t_phase
+        now = time.time()
+        phases[name] = round(phases.get(name, 0) + now - t_phase, 1)
+        t_phase = now
+        chk.coverage['phase_seconds'] = phases
+    broken = chk.lean(['Lcapy/Props/C03.lean', 'Lcapy/Props/C03Lap.lean', 'Lcapy/Props/C03Noise.lean', 'Lcapy/Props/C03Wire.lean',
+                       'Lcapy/Props/C03Groups.lean'],
                       helper_files=['Lcapy/Proofs/Linear.lean', 'Lcapy/Proofs/LinearN.lean', 'Lcapy/Proofs/MNA.lean', 'Lcapy/Model/MNA.lean',
-                                    'Lcapy/Model/Sources.lean', 'Lcapy/Model/Decompose.lean', 'Lcapy/Spec/Laws.lean'],
+                                    'Lcapy/Model/Sources.lean', 'Lcapy/Model/Decompose.lean', 'Lcapy/Spec/Laws.lean',
+                                    'Lcapy/Model/Reassemble.lean', 'Lcapy/Proofs/Reassemble.lean', 'Lcapy/Model/NoiseAlg.lean',
+                                    'Lcapy/Proofs/NoiseAlg.lean', 'Lcapy/Proofs/WireMerge.lean', 'Lcapy/Model/Groups.lean',
+                                    'Lcapy/Proofs/Groups.lean', 'Lcapy/Model/SuperSolve.lean', 'Lcapy/Spec/Noise.lean',
+                                    'Lcapy/Driver/C03.lean'],
                       leanchecker=(chk.tier == 'thorough'))
+    phase('lean')
     drv = chk.get_driver()
     import lcapy
     import sympy as S
@@ -41,14 +63,32 @@ def run(chk, replay=None):
     state.current_sign_convention = 'passive'
     rng = chk.rng
     quick = chk.tier == 'quick'
-    ncases = 25 if quick else 300
-    ndec = 40 if quick else 500
+    ncases = 13 if quick else 130
+    ndec = 40 if quick else 400
     chk.coverage['rule'] = ('random RLC(+E,G) netlists with 2-4 independent sources whose kinds are drawn from dc, ac (two '
                             'frequencies), step, causal exponential, and multi-kind sums in one source, with/without initial conditions; '
                             'every single source alone + the ICs alone; non-trivial = Lcapy solves the whole circuit and at least two '
                             'parts are non-zero; plus random source expressions for the decomposition model; distinct by text')
     n_cex = 0
     disagreements = []
+    if replay:
+        # a replay file of a round-3 stream carries the complete case description: re-run exactly that case
+        rc = json.load(open(replay))
+        d = rc.get('input', {}).get('desc')
+        fn = {'lap': c03_extra.lap_case, 'noise': c03_extra.noise_case, 'nalg': c03_extra.nalg_case,
+              'groups': c03_extra.groups_case}.get((d or {}).get('stream'))
+        if fn is not None:
+            from lcapy import omega as om_
+            Lr = {'lcapy': lcapy, 'S': S, 't': tt, 's': ss, 'omega': om_, 'disagreements': disagreements}
+            n_cex += fn(chk, drv, d, Lr)
+            chk.count('stream', 'replay-' + d['stream'])
+            chk.coverage['correspondence']['samples_of_disagreement'] = disagreements[:5]
+            if broken and n_cex == 0:
+                for b in broken[:20]:
+                    chk.unexplained('broken-obligation', b, chk.coverage.get('build_log_tail', '')[-600:])
+            if disagreements and n_cex == 0:
+                chk.unexplained('broken-correspondence', 'model vs lcapy (replayed case)', disagreements[0])
+            return
 
     def R(x):
         return S.Rational(x.numerator, x.denominator)
@@ -100,7 +140,7 @@ def run(chk, replay=None):
             return (['V1 1 0 dc %s' % v(), 'R1 1 2 %s' % r(), 'I1 3 2 dc %s' % v(), 'I2 3 2 {%d*exp(-t)*u(t)}' % rng.randint(1, 5), 'R2 2 3 %s' % r(), 'R3 3 0 %s' % r(), 'C1 2 0 %s' % r()], ['V1', 'I1', 'I2'], 's')
         return (['V1 1 2 step %s' % v(), 'V2 2 0 step %s' % v(), 'I1 1 3 step %s' % v(), 'I2 0 3 step %s' % v(), 'R1 3 0 %s' % r(), 'C1 1 0 %s' % r(), 'R2 1 3 %s' % r()], ['V1', 'V2', 'I1', 'I2'], 's')
 
-    ntemplates = 8 if quick else 48
+    ntemplates = 8 if quick else 32
     for k in range(ncases + ntemplates):
         if k < ntemplates:
             lines, srcnames, ana = template(k)
@@ -141,8 +181,10 @@ def run(chk, replay=None):
             total = {n: lap_at(cct[n].V.laplace(), sp, subs) for n in nodes}
             has_ic = cct.has_ic if hasattr(cct, 'has_ic') else False
             parts = {}
+            subcct = {}
             for sname in srcnames:
                 sub = cct.kill_except(sname)
+                subcct[sname] = sub
                 parts[sname] = {n: lap_at(sub[n].V.laplace(), sp, subs) for n in nodes}
             if base['analysis'] == 'ivp':
                 sub = cct.kill_except('ICs')
@@ -177,7 +219,7 @@ def run(chk, replay=None):
             dsum = Fraction(0)
             ok = True
             for sname in srcnames:
-                d = cct.kill_except(sname)[n0].V.dc.sympy
+                d = subcct[sname][n0].V.dc.sympy       # the single-source circuit built above (kill_except is slow)
                 g = common.gauss_rational(d.subs({q: R(subs[q.name]) for q in d.free_symbols if q.name in subs}))
                 if g is None:
                     ok = False
@@ -268,7 +310,14 @@ def run(chk, replay=None):
                 for ll in lines:
                     tk = mline(ll).split()
                     if tk[0] in srcnames and tk[0] != who:
-                        tk[4] = '0'
+                        if k % 2 == 1 and not any(ctl.split()[0][0] in 'FH' and tk[0] in ctl.split()[3:4] for ctl in lines):
+                            # as `_kill` writes it: V -> wire (the front-end merges the nodes: Props/C03Wire.lean
+                            # `kill_V_equiv` is what makes this the same circuit as the 0 V source), I -> open circuit
+                            tk = ['W' if tk[0][0] == 'V' else 'O', tk[1], tk[2]]
+                            chk.count('model', 'killed-source-as-wire/open')
+                        else:
+                            tk[4] = '0'
+                            chk.count('model', 'killed-source-as-zero-value')
                     if who != 'ICs' and tk[0][0] in 'CL' and len(tk) == 5:
                         tk = tk[:4]
                     ml.append(' '.join(tk))
@@ -293,6 +342,7 @@ def run(chk, replay=None):
                     chk.coverage['correspondence']['disagreements'] += 1
                     disagreements.append({'netlist': lines, 's': fstr(sp), 'node': bad[0], 'model_sum': str(msum[bad[0]]), 'lcapy_total': str(total[bad[0]])})
 
+    phase('superposition-circuits')
     # ---- decomposition model vs Lcapy; regrouping
     for k in range(ndec):
         nterms = rng.randint(1, 6)
@@ -325,6 +375,25 @@ def run(chk, replay=None):
         except Exception as e:   # noqa
             chk.count('lcapy-error', 'decompose:' + type(e).__name__)
             continue
+        # Laplace-domain reassembly of the source expression: Superposition.laplace() against the Lean model
+        # (raw terms -> Decompose model -> dc/s + phasor transforms + transient transforms)
+        try:
+            s0 = Fraction(rng.randint(1, 9), rng.randint(2, 5))
+            ltoks = [('ep:%s:0:-1' % x.split(':')[2]) if x.startswith('tr:') else x for x in terms]
+            lrep = dict(p.split('=', 1) for p in drv.ask1('sup.terms %s %s' % (fstr(s0), ' '.join(ltoks))).split())
+            want = c03_extra.parse_gq(lrep['total'])
+            got = lap_at(sup.laplace(), s0, {})
+            if got is not None:
+                chk.count('oracle', 'source-expression-laplace-checked')
+                if got != want:
+                    n_cex += 1
+                    chk.counterexample({'kind': 'laplace-reassembly', 'route': 'source-expression'},
+                                       {'input': {'expression': str(expr), 'terms': terms, 's': fstr(s0)},
+                                        'lcapy': {'laplace() at s': str(got), 'decomposition': str(dec)},
+                                        'spec': 'Lean model: dc/s + phasor transforms + transient transforms = %s' % (want,)},
+                                       'Superposition(%s).laplace() is not the sum of the transforms of its parts' % expr)
+        except Exception as e:   # noqa
+            chk.count('lcapy-error', 'dec-laplace:' + type(e).__name__)
         # model side
         md = dict(p.split('=', 1) for p in rep.split())
         mdc = Fraction(md['dc'])
@@ -368,9 +437,10 @@ def run(chk, replay=None):
         else:
             chk.count('oracle', 'decomposition-agrees')
 
+    phase('decomposition')
     # ---- noise: same identifier adds in amplitude, distinct identifiers add in power
     from lcapy import omega as om
-    nnoise = 10 if quick else 100
+    nnoise = 6 if quick else 50
     for k in range(nnoise):
         nsrc = rng.randint(2, 3)
         ids = [rng.choice(['nx', 'ny']) if rng.random() < 0.6 else None for _ in range(nsrc)]
@@ -428,6 +498,36 @@ def run(chk, replay=None):
                                 'lcapy': {'n^2': str(got)}, 'spec': 'sum over identifiers of |sum_k H_k(jw) a_k|^2 = %s' % want},
                                'noise contributions are not combined as power across identifiers / amplitude within an identifier')
 
+    phase('noise-nodes')
+
+    # ---- round 3 streams (c03_extra.py)
+    Lx = {'lcapy': lcapy, 'S': S, 't': tt, 's': ss, 'omega': om, 'disagreements': disagreements}
+    streams = [('lap', c03_extra.gen_lap_case, c03_extra.lap_case, 10 if quick else 70),
+               ('noise', c03_extra.gen_noise_case, c03_extra.noise_case, 4 if quick else 30),
+               ('nalg', c03_extra.gen_nalg_case, c03_extra.nalg_case, 140 if quick else 1400),
+               ('groups', c03_extra.gen_groups_case, c03_extra.groups_case, 5 if quick else 40)]
+    fn_of = {nm: fn for (nm, _, fn, _) in streams}
+    cdir = os.path.join(common.VERIF, 'corpus', 'C03')
+    if os.path.isdir(cdir):
+        for fnm in sorted(os.listdir(cdir)):
+            if fnm.endswith('.json'):
+                d = json.load(open(os.path.join(cdir, fnm)))
+                if d.get('stream') in fn_of:
+                    n_cex += fn_of[d['stream']](chk, drv, d, Lx)
+                    chk.count('stream', 'corpus-' + d['stream'])
+    phase('corpus')
+    for (nm, gen, fn, cnt) in streams:
+        for k in range(cnt):
+            d = gen(rng, k)
+            if nm == 'groups' and quick:
+                d['kills'] = d['kills'][:1]
+            n_cex += fn(chk, drv, d, Lx)
+            chk.count('stream', nm)
+        phase(nm)
+    chk.coverage['rule'] += (' || LAP: RC/RL/RLC templates, 1-2 sources with non-zero phases (ac keyword with phase, complex amplitude, cos+sin, '
+                             'phase-shifted) + dc/step/exp/multi-kind, every third an initial-value problem; NOISE: three skeletons, 2-3 noise sources, '
+                             'shared/distinct/automatic identifiers, node pairs + branch voltages; NALG: random operands incl. zeros; GROUPS: random '
+                             'mixes of source forms, resistive / reactive / with ICs, dependent sources, random kill subsets')
     chk.coverage['correspondence']['samples_of_disagreement'] = disagreements[:5]
     if broken and n_cex == 0:
         for b in broken[:20]:
